@@ -36,7 +36,7 @@ class Case:
 
     def __init__(self, name, build, requires=None, ensures=None, raises=None,
                  assume_false_ok=False, fresh_result=None, expect_no_exit=False,
-                 witness=None):
+                 witness=None, partial=False):
         self.name = name
         self.build = build
         self.requires = requires or []
@@ -45,6 +45,7 @@ class Case:
         self.fresh_result = fresh_result
         self.expect_no_exit = expect_no_exit
         self.witness = witness or {}      # hints for the precondition-satisfiable check
+        self.partial = partial            # partial correctness only: loop variants not generated
 
 
 class Contract:
@@ -216,6 +217,7 @@ class Engine(ExprMixin, CallMixin, StmtMixin):
         self.cur_func = info
         self.cur_contract = c
         self.cur_case = case.name
+        self.partial = getattr(case, "partial", False)
         self.cur_name = "%s[%s]" % (info.qualname, case.name)
         if region is not None:
             self.cur_name += ".region[%s]" % region
